@@ -93,13 +93,25 @@ theorem buildPostings_ok : ∀ (bs : List PB), (∀ b ∈ bs, PBOK b) →
         rcases hp with hp | hp <;> subst hp <;> simp only <;> split <;> exact ⟨by first | exact hb.1 | exact hb.2.1, by first | exact hb.2.1 | exact hb.1, hb.2.2⟩
       · exact h2 p hp
 
+/-- the description stored by `transaction.Builder.Build` contains no double quote -/
+theorem replaceQuotes_no_quote (s : String) : (replaceQuotes s).toList.all (fun c => c != '"') = true := by
+  unfold replaceQuotes
+  simp only [String.toList_ofList, List.all_eq_true, List.mem_map]
+  rintro c ⟨x, _, rfl⟩
+  by_cases hx : x = '"'
+  · subst hx; decide
+  · have : (x == '"') = false := by simpa using hx
+    simp [this, hx]
+
 theorem mkTx_wf (d : Int) (desc : String) (bs : List PB) (tg : Option (List Commodity)) (hne : bs ≠ [])
     (hb : ∀ b ∈ bs, PBOK b) (htg : ∀ t ∈ tg.getD [], ComOK t) : wellFormed alnum (mkTx d desc bs tg) = true := by
   obtain ⟨h1, h2⟩ := buildPostings_ok bs hb
   unfold mkTx wellFormed
-  simp only [Bool.and_eq_true, Bool.not_eq_true', List.isEmpty_eq_false_iff, beq_iff_eq, List.all_eq_true]
-  refine ⟨⟨⟨buildPostings_ne_nil hne, h1⟩, fun p hp => ?_⟩, ?_⟩
-  · obtain ⟨a, b, c⟩ := h2 p hp
+  simp only [Bool.and_eq_true, Bool.not_eq_true', List.isEmpty_eq_false_iff, beq_iff_eq]
+  refine ⟨⟨⟨⟨replaceQuotes_no_quote desc, buildPostings_ne_nil hne⟩, h1⟩, ?_⟩, ?_⟩
+  · simp only [List.all_eq_true]
+    intro p hp
+    obtain ⟨a, b, c⟩ := h2 p hp
     simp [a, b, c]
   · cases tg with
     | none => rfl
@@ -212,41 +224,40 @@ theorem cumulus_wf (acct : Account) (ha : AccOK acct) (recs : List Rec) (ds : Li
 
 /-! ## bank accounts -/
 
-theorem postfinance_wf (acct : Account) (ha : AccOK acct) (recs : List Rec) (echo : String) (ds : List Directive)
-    (h : Postfinance.run acct recs = .ok (echo, ds)) : WF ds := by
-  have hb : ∀ (cur : Commodity), ComOK cur → ∀ (rs : List Rec) (dbg : String) (ds : List Directive) (rest : List Rec),
-      Postfinance.bookings acct cur rs = .ok (dbg, ds, rest) → WF ds := by
+theorem postfinance_wf (acct : Account) (ha : AccOK acct) (recs : List Rec) (ds : List Directive)
+    (h : Postfinance.run acct recs = .ok ds) : WF ds := by
+  have hb : ∀ (cur : Commodity), ComOK cur → ∀ (rs : List Rec) (ds : List Directive) (rest : List Rec),
+      Postfinance.bookings acct cur rs = .ok (ds, rest) → WF ds := by
     intro cur hcur rs
     induction rs with
-    | nil => intro dbg ds rest h; simp [Postfinance.bookings] at h
+    | nil => intro ds rest h; simp [Postfinance.bookings] at h
     | cons r rs ih =>
-      intro dbg ds rest h
+      intro ds rest h
       unfold Postfinance.bookings at h
       split at h
       · simp at h
-        obtain ⟨_, h2, _⟩ := h
+        obtain ⟨h2, _⟩ := h
         subst h2; exact WF_nil
       · obtain ⟨d, hd, h⟩ := Res.bind_eq_ok h
         obtain ⟨q, hq, h⟩ := Res.bind_eq_ok h
-        obtain ⟨⟨dbg', ds', rest'⟩, hrec, h⟩ := Res.bind_eq_ok h
+        obtain ⟨⟨ds', rest'⟩, hrec, h⟩ := Res.bind_eq_ok h
         simp at h
-        obtain ⟨_, h2, _⟩ := h
+        obtain ⟨h2, _⟩ := h
         subst h2
-        exact WF_cons (mkTx_wf _ _ _ _ (by simp) (by simp [PBOK, ha, accOK_tbd, hcur]) (by simp)) (ih _ _ _ hrec)
+        exact WF_cons (mkTx_wf _ _ _ _ (by simp) (by simp [PBOK, ha, accOK_tbd, hcur]) (by simp)) (ih _ _ hrec)
   unfold Postfinance.run at h
   obtain ⟨⟨o, rest⟩, hkv, h⟩ := Res.bind_eq_ok h
   obtain ⟨c, hc, h⟩ := Res.bind_eq_ok h
-  obtain ⟨⟨dbg', ds', rest'⟩, hbk, h⟩ := Res.bind_eq_ok h
+  obtain ⟨⟨ds', rest'⟩, hbk, h⟩ := Res.bind_eq_ok h
   simp only at h hc hbk
   split at h
   · simp at h
-    obtain ⟨_, h2⟩ := h
-    subst h2
+    subst h
     have hcur : ComOK c := by
       cases o with
       | none => simp [Postfinance.currencyOf] at hc; subst hc; exact comOK_chf
       | some s => simp [Postfinance.currencyOf] at hc; exact comOK_of_get hc
-    exact hb c hcur _ _ _ _ hbk
+    exact hb c hcur _ _ _ hbk
   · cases h
 
 theorem revolut2_wf (acct fee : Account) (ha : AccOK acct) (hf : AccOK fee) (recs : List Rec) (ds : List Directive)
